@@ -23,6 +23,15 @@ open Orbiter
 was written against — a new piece of state that export/import would have to carry shows here first. -/
 theorem pin_genesis_fields : Gen.genesisFields = modelGenesisFields := by decide
 
+/-- Coverage obligation: the collections of the module live under the prefixes the model assumes, and no prefix is a prefix of
+another — each collection is an independent map, as the model's one-list-per-collection state says. -/
+theorem pin_store_prefixes : Gen.storePrefixes = modelStorePrefixes ∧
+    (∀ a ∈ Gen.storePrefixes, ∀ b ∈ Gen.storePrefixes, a.2 <+: b.2 → a = b) := by
+  refine ⟨by decide, ?_⟩
+  have : ∀ a ∈ Gen.storePrefixes, ∀ b ∈ Gen.storePrefixes, a.2.isPrefixOf b.2 = true → a = b := by decide
+  intro a ha b hb h
+  exact this a ha b hb (List.isPrefixOf_iff_prefix.mpr h)
+
 /-- After any history from a state satisfying the invariant (in particular from the empty store), the
 store satisfies the invariant. -/
 theorem c17_invariant_after_history (wr : Wiring) (w : World) (ops : List Op) (hi : w.orb.Inv) : (run wr w ops).orb.Inv :=
